@@ -9,7 +9,7 @@ META = {
               "normalize loop unrolled 19 with unwinding assertion",
     "outside_claim": ["opt-level / LLVM", "a rounded quotient equal to i128::MIN may be returned or signalled (outside Decimal::MIN..=MAX)",
                       "i128 integer operands equal to i128::MIN"],
-    "assumptions": ["builtin models listed in coverage.builtin_models", "kernel contracts (obligations in C16)", "RoundingMode::default() = thread's mode (C19)"],
+    "assumptions": ["builtin models listed in coverage.builtin_models", "kernel contracts (obligations in C16); checked_div_rounded contract: obligations for n = 18 discharged here (cdr cases) on top of the rounding-kernel contracts (C05 kernel cases, C16/K4)", "RoundingMode::default() = thread's mode (C19)"],
 }
 
 
@@ -30,6 +30,11 @@ def cases(ctx):
     thorough = ctx.tier == "thorough"
     pairs = [(p, q) for p in range(19) for q in range(19)]
     out.append({"id": "normalize|contract obligation", "meth": "normalize", "weight": 20})
+    # obligations of the checked_div_rounded contract for the classes `/` can reach (n = 18): same code as the C04 'cdr' cases
+    cls = [(p, q, 18) for (p, q) in (pairs if thorough else quick_pairs(ctx, 28))]
+    for mode in range(8):
+        for chunk in range(0, len(cls), 9):
+            out.append({"id": "cdr|n=18|mode=%d|classes%d" % (mode, chunk), "meth": "cdr", "kind": "cdr", "mode": mode, "classes": cls[chunk:chunk + 9], "weight": 40})
     for meth in ("div", "checked_div"):
         for mode in (range(8) if thorough else [ctx.seed % 8, (ctx.seed + 3) % 8]):
             for chunk in range(0, len(pairs), 19):
@@ -60,6 +65,9 @@ def run_case(ctx, case):
     res = Res(case["id"])
     if case["meth"] == "normalize":
         return normalize_obligation(ctx, prog, res)
+    if case["meth"] == "cdr":
+        from . import C04
+        return C04.run_case(ctx, case)
     form = case["form"]
     DL.run_div_case(ctx, prog, res, case["meth"], case["lty"], case["rty"], "vv" if form == "as" else form,
                     [tuple(x) for x in case["pairs"]], case["modes"], [18], [None], assign=(form == "as"))
@@ -95,6 +103,9 @@ def normalize_obligation(ctx, prog, res):
 
 
 def replay(ctx, native, v):
+    if v["info"].get("kind") == "cdr":
+        from . import C04
+        return C04.replay(ctx, native, v)
     if v["info"].get("meth") == "normalize":
         return {"reproduced": False, "line": "", "observed": "private helper", "expected": ""}
     return DL.replay_div(ctx, native, v)
